@@ -3,12 +3,14 @@ package o4pair
 import (
 	"bufio"
 	"encoding/json"
+	"errors"
 	"fmt"
 	"io"
 	"os"
 	"os/exec"
 	"runtime"
 	"sync"
+	"time"
 )
 
 // The real endpoints draw their randomness from process-global readers (crypto/rand.Reader,
@@ -51,7 +53,12 @@ type worker struct {
 
 // Pool is a set of worker processes.
 type Pool struct {
-	ws []*worker
+	ws        []*worker
+	driverBin string
+	// JobTimeout: a case that takes longer (IAT modes sleep for real; a pathological length table
+	// can make one Write take minutes) is abandoned: the worker is killed and replaced and the
+	// outcome is `{"worker_error":"timeout"}`.
+	JobTimeout time.Duration
 }
 
 // NewPool starts n workers (0 = one per CPU, at most 16).
@@ -62,25 +69,33 @@ func NewPool(n int, driverBin string) (*Pool, error) {
 			n = 16
 		}
 	}
-	p := &Pool{}
+	p := &Pool{driverBin: driverBin, JobTimeout: 300 * time.Second}
 	for i := 0; i < n; i++ {
-		cmd := exec.Command(os.Args[0])
-		cmd.Env = append(os.Environ(), workerEnv+"=1", driverEnv+"="+driverBin)
-		cmd.Stderr = os.Stderr
-		in, err := cmd.StdinPipe()
+		w, err := p.spawn()
 		if err != nil {
 			return nil, err
 		}
-		outp, err := cmd.StdoutPipe()
-		if err != nil {
-			return nil, err
-		}
-		if err := cmd.Start(); err != nil {
-			return nil, err
-		}
-		p.ws = append(p.ws, &worker{cmd: cmd, in: in, out: bufio.NewReaderSize(outp, 1<<20)})
+		p.ws = append(p.ws, w)
 	}
 	return p, nil
+}
+
+func (p *Pool) spawn() (*worker, error) {
+	cmd := exec.Command(os.Args[0])
+	cmd.Env = append(os.Environ(), workerEnv+"=1", driverEnv+"="+p.driverBin)
+	cmd.Stderr = os.Stderr
+	in, err := cmd.StdinPipe()
+	if err != nil {
+		return nil, err
+	}
+	outp, err := cmd.StdoutPipe()
+	if err != nil {
+		return nil, err
+	}
+	if err := cmd.Start(); err != nil {
+		return nil, err
+	}
+	return &worker{cmd: cmd, in: in, out: bufio.NewReaderSize(outp, 1<<20)}, nil
 }
 
 // Run executes the cases on the workers and returns the outcomes in case order. A worker that
@@ -90,11 +105,12 @@ func (p *Pool) Run(cases [][]byte) [][]byte {
 	var mu sync.Mutex
 	next := 0
 	var wg sync.WaitGroup
-	for _, w := range p.ws {
+	for wi := range p.ws {
 		wg.Add(1)
-		go func(w *worker) {
+		go func(wi int) {
 			defer wg.Done()
 			for {
+				w := p.ws[wi]
 				mu.Lock()
 				i := next
 				next++
@@ -107,14 +123,42 @@ func (p *Pool) Run(cases [][]byte) [][]byte {
 					res[i] = workerErr(err)
 					continue
 				}
-				out, err := w.out.ReadBytes('\n')
-				if err != nil {
-					res[i] = workerErr(err)
+				type rd struct {
+					b   []byte
+					err error
+				}
+				ch := make(chan rd, 1)
+				go func() {
+					b, err := w.out.ReadBytes('\n')
+					ch <- rd{b, err}
+				}()
+				var got rd
+				timedOut := false
+				select {
+				case got = <-ch:
+				case <-time.After(p.JobTimeout):
+					timedOut = true
+				}
+				if timedOut || got.err != nil {
+					if timedOut {
+						res[i] = workerErr(errors.New("timeout"))
+					} else {
+						res[i] = workerErr(got.err)
+					}
+					// replace the worker
+					w.cmd.Process.Kill()
+					w.in.Close()
+					w.cmd.Wait()
+					if nw, err := p.spawn(); err == nil {
+						p.ws[wi] = nw
+					} else {
+						return
+					}
 					continue
 				}
-				res[i] = out
+				res[i] = got.b
 			}
-		}(w)
+		}(wi)
 	}
 	wg.Wait()
 	return res
